@@ -266,7 +266,9 @@ func (c *Check) depositPayer(rule string) {
 		for _, e := range c.P.SummaryOf(en.Handler).Effs {
 			if e.Kind == "bank" && e.Op == "SendCoinsFromAccountToModule" && isModuleAccount(e.To, "DepositAccName") && e.Commit {
 				n++
-				c.req(e.From.String() == en.SignerTerm(), rule, effConstruct(en.Msg, e), e.Pos, "payer "+shortTerm(e.From)+" is the signer "+en.Signer)
+				// the signer itself, or an address the path has checked to equal the signer (the stored owner after the owner check)
+				okPayer := e.From.String() == en.SignerTerm() || equalsFact(c.closeFacts(e.Guards), en.SignerTerm(), e.From.String())
+				c.req(okPayer, rule, effConstruct(en.Msg, e), e.Pos, "payer "+shortTerm(e.From)+" is the signer "+en.Signer)
 			}
 		}
 	}
